@@ -13,86 +13,125 @@ Local Open Scope N_scope.
 Definition is_sync_hdr (s : bytes) (n : N) : Prop :=
   exists bin ds, lex_literal_hdr s = Some ((bin, ds, false), []) /\ digits_value ds = n.
 Definition ends_hdr (B : bytes) (n : N) : Prop := exists s, sfx s B /\ is_sync_hdr s n.
-Definition lsfx (cs' cs : list bytes) : Prop := exists pre, cs = pre ++ cs'.
-Definition within (b' b : bytes) (cs : list bytes) : Prop :=
-  sfx b' b \/ exists c, In c cs /\ sfx b' c.
-
-Lemma lsfx_refl cs : lsfx cs cs.
-Proof. exists []. reflexivity. Qed.
-Lemma lsfx_trans a b c : lsfx a b -> lsfx b c -> lsfx a c.
-Proof. intros [p ->] [q ->]. exists (q ++ p). rewrite app_assoc. reflexivity. Qed.
-Lemma lsfx_in x cs' cs : lsfx cs' cs -> In x cs' -> In x cs.
-Proof. intros [p ->] H. apply in_or_app. right. exact H. Qed.
 Lemma ends_hdr_sfx B B' n : ends_hdr B n -> sfx B B' -> ends_hdr B' n.
 Proof. intros (s & Hs & Hh) H. exists s. split; [eapply sfx_trans; eauto|exact Hh]. Qed.
 
-Lemma within_trans b'' b' b cs' cs :
-  within b'' b' cs' -> within b' b cs -> lsfx cs' cs -> within b'' b cs.
+(* B ends with some synchronizing literal header *)
+Definition E (B : bytes) : Prop := exists n, ends_hdr B n.
+Lemma E_sfx B B' : E B -> sfx B B' -> E B'.
+Proof. intros [n H] Hs. exists n. eapply ends_hdr_sfx; eauto. Qed.
+
+(* from position b with the continuations cs pending one can get to b' with
+   cs' pending: inside the buffer, or through its closing synchronizing
+   literal into the next continuation, and so on *)
+Fixpoint reach (b : bytes) (cs : list bytes) (b' : bytes) (cs' : list bytes) : Prop :=
+  (cs' = cs /\ sfx b' b) \/
+  match cs with
+  | [] => False
+  | c :: rest => E b /\ reach c rest b' cs'
+  end.
+Definition allhdr (b : bytes) (cs : list bytes) : Prop := E b /\ Forall E cs.
+Definition int_for (n : N) (b : bytes) (cs : list bytes) : Prop :=
+  exists B, (B = b \/ In B cs) /\ ends_hdr B n.
+
+Lemma reach_sfx b cs b' : sfx b' b -> reach b cs b' cs.
+Proof. intro H. destruct cs; left; auto. Qed.
+Lemma reach_refl b cs : reach b cs b cs.
+Proof. apply reach_sfx, sfx_refl. Qed.
+
+Lemma reach_trans cs : forall b b1 cs1 b2 cs2,
+  reach b cs b1 cs1 -> reach b1 cs1 b2 cs2 -> reach b cs b2 cs2.
 Proof.
-  intros [H|(c & Hc & H)] Hw Hl.
-  - destruct Hw as [Hw|(c & Hc & Hw)].
-    + left. eapply sfx_trans; eauto.
-    + right. exists c. split; [exact Hc|eapply sfx_trans; eauto].
-  - right. exists c. split; [eapply lsfx_in; eauto|exact H].
+  induction cs as [|c rest IH]; intros b b1 cs1 b2 cs2 H1 H2.
+  - destruct H1 as [[-> Hs]|[]]. destruct H2 as [[-> Hs2]|[]].
+    left. split; [reflexivity|eapply sfx_trans; eauto].
+  - destruct H1 as [[-> Hs]|[He H1]].
+    + destruct H2 as [[-> Hs2]|[He2 H2]].
+      * left. split; [reflexivity|eapply sfx_trans; eauto].
+      * right. split; [eapply E_sfx; eauto|exact H2].
+    + right. split; [exact He|eapply IH; eauto].
 Qed.
 
+Lemma allhdr_back cs : forall b b' cs', reach b cs b' cs' -> allhdr b' cs' -> allhdr b cs.
+Proof.
+  induction cs as [|c rest IH]; intros b b' cs' H [He Hf].
+  - destruct H as [[-> Hs]|[]]. split; [eapply E_sfx; eauto|exact Hf].
+  - destruct H as [[-> Hs]|[Heb H]].
+    + split; [eapply E_sfx; eauto|exact Hf].
+    + destruct (IH _ _ _ H (conj He Hf)) as [Hc Hr]. split; [exact Heb|constructor; assumption].
+Qed.
+
+Lemma int_back n cs : forall b b' cs', reach b cs b' cs' -> int_for n b' cs' -> int_for n b cs.
+Proof.
+  induction cs as [|c rest IH]; intros b b' cs' H (B & HB & Hh).
+  - destruct H as [[-> Hs]|[]]. destruct HB as [->|[]].
+    exists b. split; [left; reflexivity|eapply ends_hdr_sfx; eauto].
+  - destruct H as [[-> Hs]|[Heb H]].
+    + destruct HB as [->|Hin].
+      * exists b. split; [left; reflexivity|eapply ends_hdr_sfx; eauto].
+      * exists B. split; [right; exact Hin|exact Hh].
+    + destruct (IH _ _ _ H (ex_intro _ B (conj HB Hh))) as (B' & [->|Hin] & Hh').
+      * exists c. split; [right; left; reflexivity|exact Hh'].
+      * exists B'. split; [right; right; exact Hin|exact Hh'].
+Qed.
+
+(* the judgment: results are reachable positions; an interrupt means every
+   buffer from here on ends with a synchronizing literal, the last one with
+   the literal that is asked about *)
 Definition just {A} (p : parser A) : Prop :=
   forall cs b,
     match p cs b with
-    | POk _ b' cs' => within b' b cs /\ lsfx cs' cs
-    | PFail _ cs' => lsfx cs' cs
-    | PInt n => exists B, (B = b \/ In B cs) /\ ends_hdr B n
+    | POk _ b' cs' => reach b cs b' cs'
+    | PInt n => allhdr b cs /\ int_for n b cs
     | _ => True
     end.
 
-(* an interrupt raised after moving to (b', cs') is one for (b, cs) *)
-Lemma int_lift n b' cs' b cs :
-  (exists B, (B = b' \/ In B cs') /\ ends_hdr B n) ->
-  within b' b cs -> lsfx cs' cs ->
-  exists B, (B = b \/ In B cs) /\ ends_hdr B n.
-Proof.
-  intros (B & [->|Hin] & He) Hw Hl.
-  - destruct Hw as [Hw|(c & Hc & Hw)].
-    + exists b. split; [left; reflexivity|eapply ends_hdr_sfx; eauto].
-    + exists c. split; [right; exact Hc|eapply ends_hdr_sfx; eauto].
-  - exists B. split; [right; eapply lsfx_in; eauto|exact He].
-Qed.
-
 Lemma just_ret {A} (a : A) : just (ret a).
-Proof. intros cs b. unfold ret. split; [left; apply sfx_refl|apply lsfx_refl]. Qed.
+Proof. intros cs b. apply reach_refl. Qed.
 Lemma just_fail {A} k : just (@fail A k).
-Proof. intros cs b. apply lsfx_refl. Qed.
+Proof. intros cs b. exact I. Qed.
 Lemma just_raise {A} x : just (@raise A x).
 Proof. intros cs b. exact I. Qed.
 
+Lemma just_then {A B} (r : pres A) (q : A -> parser B) cs b :
+  match r with
+  | POk _ b' cs' => reach b cs b' cs'
+  | PInt n => allhdr b cs /\ int_for n b cs
+  | _ => True
+  end ->
+  (forall a, just (q a)) ->
+  match (match r with
+         | POk a b' cs' => q a cs' b'
+         | PFail k cs' => PFail k cs'
+         | PInt n => PInt n
+         | PExc x => PExc x
+         | PFuel => PFuel
+         | PUnk => PUnk
+         end) with
+  | POk _ b' cs' => reach b cs b' cs'
+  | PInt n => allhdr b cs /\ int_for n b cs
+  | _ => True
+  end.
+Proof.
+  intros Hr Hq. destruct r as [a b' cs'| | | | |]; auto.
+  specialize (Hq a cs' b'). destruct (q a cs' b') as [a2 b2 cs2|k cs2|n| | |]; auto.
+  - eapply reach_trans; eauto.
+  - destruct Hq as [H1 H2]. split; [eapply allhdr_back; eauto|eapply int_back; eauto].
+Qed.
+
 Lemma just_bind {A B} (p : parser A) (q : A -> parser B) :
   just p -> (forall a, just (q a)) -> just (bind p q).
-Proof.
-  intros Hp Hq cs b. unfold bind. specialize (Hp cs b).
-  destruct (p cs b) as [a b' cs'| | | | |]; auto.
-  destruct Hp as [Hw Hl]. specialize (Hq a cs' b').
-  destruct (q a cs' b') as [a2 b2 cs2|k cs2|n| | |]; auto.
-  - destruct Hq as [Hw2 Hl2]. split; [eapply within_trans; eauto|eapply lsfx_trans; eauto].
-  - eapply lsfx_trans; eauto.
-  - eapply int_lift; eauto.
-Qed.
+Proof. intros Hp Hq cs b. unfold bind. apply just_then; [apply Hp|exact Hq]. Qed.
 
 Lemma just_try_else {A B} (p : parser A) (q : A -> parser B) h :
   just p -> (forall a, just (q a)) -> (forall k, just (h k)) -> just (try_else p q h).
 Proof.
   intros Hp Hq Hh cs b. unfold try_else. specialize (Hp cs b).
   destruct (p cs b) as [a b' cs'|k cs'| | | |]; auto.
-  - destruct Hp as [Hw Hl]. specialize (Hq a cs' b').
-    destruct (q a cs' b') as [a2 b2 cs2|k2 cs2|n| | |]; auto.
-    + destruct Hq as [Hw2 Hl2]. split; [eapply within_trans; eauto|eapply lsfx_trans; eauto].
-    + eapply lsfx_trans; eauto.
-    + eapply int_lift; eauto.
-  - specialize (Hh k cs' b).
-    destruct (h k cs' b) as [a2 b2 cs2|k2 cs2|n| | |]; auto.
-    + destruct Hh as [Hw2 Hl2]. split; [|eapply lsfx_trans; eauto].
-      eapply within_trans; [exact Hw2|left; apply sfx_refl|exact Hp].
-    + eapply lsfx_trans; eauto.
-    + eapply int_lift; [exact Hh|left; apply sfx_refl|exact Hp].
+  - specialize (Hq a cs' b'). destruct (q a cs' b') as [a2 b2 cs2|k2 cs2|n| | |]; auto.
+    + eapply reach_trans; eauto.
+    + destruct Hq as [H1 H2]. split; [eapply allhdr_back; eauto|eapply int_back; eauto].
+  - apply Hh.
 Qed.
 
 Lemma just_try {A} (p : parser A) h : just p -> (forall k, just (h k)) -> just (try_ p h).
@@ -100,22 +139,20 @@ Proof. intros Hp Hh. unfold try_. apply just_try_else; auto. intro a. apply just
 
 Lemma just_lex {A} (f : bytes -> option (A * bytes)) : suffixing f -> just (lex f).
 Proof.
-  intros Hf cs b. unfold lex. destruct (f b) as [[a b']|] eqn:E; [|apply lsfx_refl].
-  split; [left; eapply Hf; eauto|apply lsfx_refl].
+  intros Hf cs b. unfold lex. destruct (f b) as [[a b']|] eqn:E0; [|exact I].
+  apply reach_sfx. eapply Hf; eauto.
 Qed.
 
 Lemma just_peek : just peek.
-Proof. intros cs b. unfold peek. split; [left; apply sfx_refl|apply lsfx_refl]. Qed.
+Proof. intros cs b. apply reach_refl. Qed.
 Lemma just_guard c k : just (guard c k).
 Proof. unfold guard. destruct c; [apply just_ret|apply just_fail]. Qed.
 Lemma just_guard_exc c x : just (guard_exc c x).
 Proof. unfold guard_exc. destruct c; [apply just_ret|apply just_raise]. Qed.
 Lemma just_ask o k v : just (ask o k v).
 Proof.
-  intros cs b. unfold ask. destruct (o k v) as [|p]; [split; [left; apply sfx_refl|apply lsfx_refl]|].
-  destruct p as [p|p|]; try exact I;
-    try (destruct p; try exact I; split; [left; apply sfx_refl|apply lsfx_refl]);
-    split; [left; apply sfx_refl|apply lsfx_refl].
+  intros cs b. unfold ask. destruct (o k v) as [|p]; [apply reach_refl|].
+  destruct p as [p|p|]; try exact I; try (destruct p; try exact I; apply reach_refl); apply reach_refl.
 Qed.
 
 Lemma just_loop {S R} (step : S -> parser (S + R)) :
@@ -124,11 +161,10 @@ Proof.
   intros Hs fuel. induction fuel as [|f IH]; intros s cs b; cbn [loop]; [exact I|].
   specialize (Hs s cs b).
   destruct (step s cs b) as [[s'|r] b' cs'| | | | |]; auto.
-  destruct Hs as [Hw Hl]. specialize (IH s' cs' b').
+  specialize (IH s' cs' b').
   destruct (loop f step s' cs' b') as [a2 b2 cs2|k2 cs2|n| | |]; auto.
-  - destruct IH as [Hw2 Hl2]. split; [eapply within_trans; eauto|eapply lsfx_trans; eauto].
-  - eapply lsfx_trans; eauto.
-  - eapply int_lift; eauto.
+  - eapply reach_trans; eauto.
+  - destruct IH as [H1 H2]. split; [eapply allhdr_back; eauto|eapply int_back; eauto].
 Qed.
 
 Lemma just_expected {A} (ps : list (parser A)) : Forall just ps -> just (p_expected ps).
@@ -137,27 +173,27 @@ Proof.
   inversion H; subst. apply just_try; [assumption|]. intro. apply IH. assumption.
 Qed.
 
-(* the one place where an interrupt is raised *)
+(* the one place where a continuation is consumed or an interrupt raised *)
 Lemma just_literal pr : just (p_literal pr).
 Proof.
   intros cs b. unfold p_literal, bind, lex.
-  destruct (lex_literal_hdr b) as [[[[bin ds] plus] b1]|] eqn:E; [|apply lsfx_refl].
-  pose proof (lex_literal_hdr_sfx _ _ _ E) as Hs1.
+  destruct (lex_literal_hdr b) as [[[[bin ds] plus] b1]|] eqn:E0; [|exact I].
+  pose proof (lex_literal_hdr_sfx _ _ _ E0) as Hs1.
   unfold guard_exc. destruct (negb (too_many_digits ds)); [|exact I]. unfold ret.
-  unfold guard. destruct (negb (too_big pr (digits_value ds))); [|apply lsfx_refl]. unfold ret.
+  unfold guard. destruct (negb (too_big pr (digits_value ds))); [|exact I]. unfold ret.
   destruct plus.
-  - destruct (take_exact (digits_value ds) b1) as [[lit rest]|] eqn:Et; [|apply lsfx_refl].
-    apply take_exact_sfx in Et. split; [left; eapply sfx_trans; eauto|apply lsfx_refl].
-  - unfold peek. destruct b1 as [|c1 r1]; cbn [is_empty]; [|apply lsfx_refl].
-    destruct (pa_allow_cont pr); [|apply lsfx_refl].
+  - destruct (take_exact (digits_value ds) b1) as [[lit rest]|] eqn:Et; [|exact I].
+    apply take_exact_sfx in Et. apply reach_sfx. eapply sfx_trans; eauto.
+  - unfold peek. destruct b1 as [|c1 r1]; cbn [is_empty]; [|exact I].
+    destruct (pa_allow_cont pr); [|exact I].
+    assert (Hh : ends_hdr b (digits_value ds)).
+    { exists b. split; [apply sfx_refl|]. exists bin, ds. split; [exact E0|reflexivity]. }
     unfold take_cont. destruct cs as [|c cs'].
-    + exists b. split; [left; reflexivity|]. exists b. split; [apply sfx_refl|].
-      exists bin, ds. split; [exact E|reflexivity].
-    + destruct (take_exact (digits_value ds) c) as [[lit rest]|] eqn:Et.
-      * apply take_exact_sfx in Et. split.
-        -- right. exists c. split; [left; reflexivity|exact Et].
-        -- exists [c]. reflexivity.
-      * exists [c]. reflexivity.
+    + split; [split; [exists (digits_value ds); exact Hh|constructor]|].
+      exists b. split; [left; reflexivity|exact Hh].
+    + destruct (take_exact (digits_value ds) c) as [[lit rest]|] eqn:Et; [|exact I].
+      apply take_exact_sfx in Et. right. split; [exists (digits_value ds); exact Hh|].
+      apply reach_sfx. exact Et.
 Qed.
 
 Create HintDb jdb.
@@ -279,7 +315,7 @@ Proof.
   apply just_bind; [jds|]. intros _. apply just_bind; [jds|]. intros _.
   apply just_bind; [jds|]. intros [|]; [jds|].
   apply just_bind.
-  { apply just_try; [|jds]. apply just_bind; [|jds]. apply j_list. apply just_expected.
+  { apply just_try_else; [|jds|jds]. apply j_list. apply just_expected.
     constructor; [apply IH|constructor]. }
   intros [|]; [jds|].
   apply just_bind; [jds|]. intro a. cbv zeta.
@@ -328,18 +364,17 @@ Proof.
 Qed.
 
 Lemma run_args_interrupt o cfg k tag cs b fuel n :
-  run_args o cfg k tag cs b fuel = OInterrupt n ->
-  exists B, (B = b \/ In B cs) /\ ends_hdr B n.
+  run_args o cfg k tag cs b fuel = OInterrupt n -> allhdr b cs /\ int_for n b cs.
 Proof.
   unfold run_args. pose proof (j_args o fuel (c_depth cfg) (base_params cfg k) k cs b) as H.
   destruct (p_args o fuel (c_depth cfg) (base_params cfg k) k cs b); try discriminate.
-  - intro E. inversion E; subst. exact H.
+  - intro E0. inversion E0; subst. exact H.
   - destruct x; discriminate.
 Qed.
 
-Theorem interrupt_justified o cfg line cs n :
+Theorem interrupt_chain o cfg line cs n :
   parse_command o cfg line cs = OInterrupt n ->
-  exists B, In B (line :: cs) /\ ends_hdr B n.
+  Forall E (line :: cs) /\ exists B, In B (line :: cs) /\ ends_hdr B n.
 Proof.
   unfold parse_command.
   destruct (lex_run tag_char line) as [[tag b1]|] eqn:E1; [|discriminate].
@@ -348,10 +383,12 @@ Proof.
   apply lex_word_sfx in E2.
   assert (Hfin : forall b k, sfx b line ->
             run_args o cfg k tag cs b (S (mu line cs)) = OInterrupt n ->
-            exists B, In B (line :: cs) /\ ends_hdr B n).
-  { intros b k Hs E. apply run_args_interrupt in E. destruct E as (B & [->|Hin] & He).
-    - exists line. split; [left; reflexivity|eapply ends_hdr_sfx; eauto].
-    - exists B. split; [right; exact Hin|exact He]. }
+            Forall E (line :: cs) /\ exists B, In B (line :: cs) /\ ends_hdr B n).
+  { intros b k Hs E0. apply run_args_interrupt in E0. destruct E0 as [[He Hf] (B & [->|Hin] & Hh)].
+    - split; [constructor; [eapply E_sfx; eauto|exact Hf]|].
+      exists line. split; [left; reflexivity|eapply ends_hdr_sfx; eauto].
+    - split; [constructor; [eapply E_sfx; eauto|exact Hf]|].
+      exists B. split; [right; exact Hin|exact Hh]. }
   destruct (bytes_eqb w1 s_UID).
   - destruct (lex_word b2) as [[w2 b3]|] eqn:E3; [|discriminate].
     apply lex_word_sfx in E3.
@@ -359,4 +396,116 @@ Proof.
     apply Hfin. eapply sfx_trans; [exact E3|]. eapply sfx_trans; eauto.
   - destruct (lookup w1 command_table); [|discriminate].
     apply Hfin. eapply sfx_trans; eauto.
+Qed.
+
+Theorem interrupt_justified o cfg line cs n :
+  parse_command o cfg line cs = OInterrupt n ->
+  exists B, In B (line :: cs) /\ ends_hdr B n.
+Proof. intro H. apply interrupt_chain in H. tauto. Qed.
+
+(* ---------------------------------------------------------------- counting *)
+Definition is_sync_hdr_b (s : bytes) : bool :=
+  match lex_literal_hdr s with
+  | Some ((_, _, false), []) => true
+  | _ => false
+  end.
+Fixpoint any_tail (f : bytes -> bool) (b : bytes) : bool :=
+  f b || match b with [] => false | _ :: r => any_tail f r end.
+(* the buffer ends with a synchronizing literal header *)
+Definition sync_end (B : bytes) : bool := any_tail is_sync_hdr_b B.
+(* number of synchronizing literals in the line and its continuations *)
+Definition nsync (bufs : list bytes) : nat := length (filter sync_end bufs).
+
+Lemma any_tail_sfx f s : forall B, sfx s B -> f s = true -> any_tail f B = true.
+Proof.
+  intros B [pre ->]. induction pre as [|c pre IH]; intro Hf.
+  - destruct s; cbn [app any_tail]; rewrite Hf; reflexivity.
+  - cbn [app any_tail]. rewrite (IH Hf). apply orb_true_r.
+Qed.
+
+Lemma E_sync_end B : E B -> sync_end B = true.
+Proof.
+  intros (n & s & Hs & bin & ds & Hl & _). eapply any_tail_sfx; [exact Hs|].
+  unfold is_sync_hdr_b. rewrite Hl. reflexivity.
+Qed.
+
+Lemma nsync_all bufs : Forall E bufs -> nsync bufs = length bufs.
+Proof.
+  unfold nsync. induction 1 as [|B r HB _ IH]; [reflexivity|].
+  cbn [filter]. rewrite (E_sync_end _ HB). cbn [length]. rewrite IH. reflexivity.
+Qed.
+
+Lemma nsync_firstn k l : (nsync (firstn k l) <= nsync l)%nat.
+Proof.
+  unfold nsync. revert k. induction l as [|x r IH]; intro k; destruct k; cbn [firstn filter length]; try lia;
+    try specialize (IH k); destruct (sync_end x); cbn [length]; lia.
+Qed.
+
+(* the requests counted by read_command are bounded by the synchronizing
+   literals of the exchange *)
+Lemma read_command_asked o cfg line supplied :
+  forall fuel k, (k <= length supplied)%nat ->
+    (k <= nsync (line :: firstn k supplied))%nat \/ k = O ->
+    match read_command fuel o cfg line supplied k with
+    | RCDone _ asked => (asked <= nsync (line :: supplied))%nat
+    | RCWaiting asked _ => (asked <= nsync (line :: supplied))%nat
+    | RCFuel => True
+    end.
+Proof.
+  assert (Hmono : forall k, (nsync (line :: firstn k supplied) <= nsync (line :: supplied))%nat).
+  { intro k. unfold nsync. cbn [filter]. pose proof (nsync_firstn k supplied) as H. unfold nsync in H.
+    destruct (sync_end line); cbn [length]; lia. }
+  induction fuel as [|f IH]; intros k Hk Hinv; cbn [read_command]; [exact I|].
+  assert (Hkb : (k <= nsync (line :: supplied))%nat).
+  { destruct Hinv as [H| ->]; [|lia]. specialize (Hmono k). lia. }
+  destruct (parse_command o cfg line (firstn k supplied)) eqn:Ep; try exact Hkb.
+  apply interrupt_chain in Ep. destruct Ep as [Hall _].
+  apply nsync_all in Hall. cbn [length] in Hall. rewrite firstn_length_le in Hall by exact Hk.
+  destruct (Nat.ltb k (length supplied)) eqn:El.
+  - apply PeanoNat.Nat.ltb_lt in El. apply IH; [lia|]. left.
+    (* the first k buffers all end with a literal: so do they among the first k+1 *)
+    assert (Hpre : (nsync (line :: firstn k supplied) <= nsync (line :: firstn (S k) supplied))%nat).
+    { assert (Hf : firstn k supplied = firstn k (firstn (S k) supplied)).
+      { rewrite firstn_firstn. f_equal. lia. }
+      rewrite Hf at 1. unfold nsync. cbn [filter].
+      pose proof (nsync_firstn k (firstn (S k) supplied)) as H. unfold nsync in H.
+      destruct (sync_end line); cbn [length]; lia. }
+    lia.
+  - specialize (Hmono k). lia.
+Qed.
+
+Theorem read_command_bound o cfg line supplied :
+  match read_command (S (length supplied)) o cfg line supplied 0 with
+  | RCDone _ asked => (asked <= nsync (line :: supplied))%nat
+  | RCWaiting asked _ => (asked <= nsync (line :: supplied))%nat
+  | RCFuel => True
+  end.
+Proof. apply read_command_asked; [lia|right; reflexivity]. Qed.
+
+From PV Require Import Cmd.ParserProofs Cmd.GrammarProofs Cmd.CommandsProofs.
+
+Theorem read_command_full_bound o cfg line supplied :
+  match read_command (S (length supplied)) o cfg line supplied 0 with
+  | RCDone out asked =>
+    (asked <= nsync (line :: supplied))%nat /\ (asked <= length supplied)%nat /\
+    match out with OInterrupt _ => False | _ => True end
+  | RCWaiting asked _ =>
+    (asked <= nsync (line :: supplied))%nat /\ asked = S (length supplied)
+  | RCFuel => False
+  end.
+Proof.
+  pose proof (read_command_bound o cfg line supplied) as Hb.
+  pose proof (read_command_terminates o cfg line supplied) as Ht.
+  destruct (read_command (S (length supplied)) o cfg line supplied 0); cbn [rc_ok] in Ht.
+  - destruct Ht. auto.
+  - auto.
+  - exact Ht.
+Qed.
+
+Theorem interrupt_all_sync_end o cfg line conts n :
+  parse_command o cfg line conts = OInterrupt n ->
+  Forall (fun B => sync_end B = true) (line :: conts).
+Proof.
+  intro H. apply interrupt_chain in H. destruct H as [H _].
+  eapply Forall_impl; [|exact H]. intros B HB. apply E_sync_end. exact HB.
 Qed.
